@@ -26,7 +26,7 @@ def correspondence(ctx):
     maxlen = 3 if ctx.tier == 'quick' else 4
     cases = []
     for op in ('prepare', 'enforce'):
-        cases += profile_cases(ctx, 'nick', op, FREE_ALPHA, maxlen, 3000 if ctx.tier == 'quick' else 60000)
+        cases += profile_cases(ctx, 'nick', op, xa(ctx, FREE_ALPHA, 5), maxlen, 3000 if ctx.tier == 'quick' else 60000)
     # inputs that need 1, 2 and 3 applications: NFKC introduces spaces / characters that need further mapping
     special = [[0xA8], [0xA8, 0x61], [0x61, 0xA8], [0xFDFA], [0x61, 0xFDFA, 0x62], [0x2163], [0x3000, 0x61, 0x3000], [0x61, 0x3000, 0x20, 0xA8],
                [0xAF], [0x2DC, 0x61], [0x61, 0x2DC], [0x384, 0x3B1], [0x1FBF], [0x1FFE, 0x61], [0x61, 0x2017], [0x203E, 0x61], [0xFE49], [0xFC5E], [0xFC5E, 0x61],
